@@ -228,12 +228,14 @@ OPS = [('Add', 'core::ops::arith::Add', 'add', ('bin', 'Add'), 2),
        ('Neg', 'core::ops::arith::Neg', 'neg', ('un', 'Neg'), 1)]
 
 
-def check_ops(run, facts, cfg, mod, name, bits, signed, rep):
+def check_ops(run, facts, cfg, mod, name, bits, signed, rep, only=None, rule='op'):
     tp = tpath(mod, name)
     lo, hi = spec_range(bits, signed)
     debug = cfg != 'std-release'
     n = 0
     for opname, trait, meth, expect, arity in OPS:
+        if only is not None and opname not in only:
+            continue
         fn = '<%s as %s>::%s' % (tp, trait, meth)
         body = facts.body(fn)
         if opname == 'Neg':
@@ -245,13 +247,13 @@ def check_ops(run, facts, cfg, mod, name, bits, signed, rep):
                 run.note('%s has no Neg impl (nothing to check)' % name)
                 continue
         if body is None:
-            run.fail('op', fn, cfg, 'operator impl not found')
+            run.fail(rule, fn, cfg, 'operator impl not found')
             continue
         n += 1
         try:
             it = run_fn(facts, body, [(tp, rep, lo, hi)] * arity, 1 << bits, expect)
         except Top as e:
-            run.unproven('op', fn, cfg, 'outside the interval domain: %s' % e, where=body['span'])
+            run.unproven(rule, fn, cfg, 'outside the interval domain: %s' % e, where=body['span'])
             continue
         bad = None
         nret = npanic = 0
@@ -283,7 +285,7 @@ def check_ops(run, facts, cfg, mod, name, bits, signed, rep):
         if not bad:
             rr = Interp(facts, 1).trange(rep)
             bad = termination(it, rr[0], rr[1])
-        run.check(bad is None, 'op', fn, cfg, bad or '', where=mirutil.first_line(body),
+        run.check(bad is None, rule, fn, cfg, bad or '', where=mirutil.first_line(body),
                   sample={'returning paths': nret, 'panicking paths': npanic} if mod in ('i24',) else None)
     return n
 
